@@ -20,7 +20,7 @@ EXPLANATION = (
     "false changes nothing but the paths' for all inputs); first_only guards no write to dist/seen.  R-C08-4 the cutoff prune is a "
     "strict `candidate > cutoff` and the target exit follows the finalisation dist[v] = d.  R-C08-5 get_all_shortest_paths_involving "
     "asks all_pairs for (None, None, false, true) and filters with contains_path_through_node, whose slice excludes first and last.  "
-    "R-C08-8 the ContradictoryPaths refusal is immediately decided by a STRICT ordering comparison (ties are second shortest paths).  NOT decided: equality of the fast and full kernels' distances, symmetry, triangle inequality (value-level)."
+    "R-C08-8 the ContradictoryPaths refusal is immediately decided by a STRICT ordering comparison (ties are second shortest paths).  R-C08-9 no branch decided by the cutoff leaves the loop over the popped node's edges.  NOT decided: equality of the fast and full kernels' distances, symmetry, triangle inequality (value-level)."
 )
 TRUSTED = ["rustc MIR construction", "flow-insensitive may-dependence: absence of dependence is definite"]
 
@@ -66,6 +66,7 @@ def run(ctx):
     rule5(ctx, prog, flows)
     rule7(ctx, prog, flows, full)
     rule8(ctx, prog, flows)
+    rule9(ctx, prog, flows, full)
 
 
 def rule1(ctx, prog, flows, cub, full, basic):
@@ -545,3 +546,41 @@ def rule8(ctx, prog, flows):
                 ctx.require(strict, "R-C08-8", "refusal|%s|%d" % (b_.short, n), "the refusal in %s is taken on the strict %s" % (b_.short.split("::")[-1], fmt_desc(te)),
                             "the refusal in %s is taken when %s is %s, which includes equality: a node reached by two routes of the same length makes the search fail with ContradictoryPaths instead of recording both shortest paths" % (b_.short, fmt_desc(te), v), loc_str(b_.blocks[bb].term.span))
     ctx.floor("R-C08-8", "contradictory_path_refusals", n, 1)
+
+
+def rule9(ctx, prog, flows, full):
+    """the cutoff prunes ONE candidate: the edge (v, u) whose tentative distance exceeds it.  The other edges of the
+    same row are independent of it -- rows are in insertion order, not sorted by weight -- so a branch that is decided
+    by the cutoff must stay inside the loop over the row (`continue`); leaving the loop (`break`) drops in-cutoff
+    neighbours that happen to be stored after an overshooting one."""
+    from hashord import natural_loop_blocks
+
+    ctx.rule("R-C08-9", "a branch decided by the cutoff never leaves the loop over the popped node's edges (the prune skips one edge, not the rest of the row)")
+    fl = flows.of(full)
+    cut = full.param_local("cutoff")
+    if cut is None:
+        ctx.anchor_lost("R-C08-9", "the `cutoff` parameter of the full kernel")
+        return
+    loops = []
+    for t in full.calls():
+        if t.callee and t.callee.short == "std::iter::Iterator::next":
+            lb = natural_loop_blocks(full, t.bb)
+            if len(lb) > 1:
+                loops.append((len(lb), t.bb, lb))
+    loops.sort()
+    n = 0
+    for blk in full.normal_blocks():
+        if blk.term.k != "switch" or blk.term.discr.place is None:
+            continue
+        sl = fl.slice_local(fl._op_reads(blk.term.discr), data_only=True)
+        if L(cut) not in sl:
+            continue
+        inner = next(((h, lb) for (_n, h, lb) in loops if blk.i in lb), None)
+        if inner is None:
+            continue
+        n += 1
+        h, lb = inner
+        out = [s_ for s_ in full.succ(blk.i) if s_ not in lb]
+        ctx.require(not out, "R-C08-9", "cutoff-branch|%d" % n, "both outcomes of the cutoff test stay inside the edge loop",
+                    "a branch decided by the cutoff leaves the loop over the popped node's edges: once one edge overshoots the cutoff the remaining edges of the row are never relaxed, so nodes within the cutoff are missing or are reported with a longer distance", loc_str(blk.term.span))
+    ctx.floor("R-C08-9", "cutoff_branches_in_edge_loop", n, 1)
